@@ -16,6 +16,8 @@ def dispatch (op : String) (payload : Json) : R Json :=
   | "ser" => C18.handleSer payload
   | "structure" => C18.handleStructure payload
   | "imports" => C12.handle payload
+  | "diag_run" => C15.handle payload
+  | "diag_render" => C15.handleRender payload
   | _ => .error s!"unknown op {op}"
 
 partial def loop (h : IO.FS.Stream) (out : IO.FS.Stream) : IO Unit := do
